@@ -23,7 +23,6 @@ import (
 	"go/ast"
 	"go/token"
 	"go/types"
-	"strings"
 
 	"golang.org/x/tools/go/cfg"
 )
@@ -407,7 +406,8 @@ func fbSuccessReturn(info *types.Info, ret *ast.ReturnStmt) bool {
 		}
 	}
 	if id, ok := last.(*ast.Ident); ok {
-		return !strings.Contains(strings.ToLower(id.Name), "err")
+		// an error variable may or may not be nil here: not a known-successful exit
+		return !isErrorType(info.TypeOf(id))
 	}
 	return false
 }
